@@ -17,7 +17,9 @@ CFG = dict(
                  "yields once more)",
                  "timing before the OPEN exchange (the 240 s OpenSent hold timer) is not judged",
                  "an UPDATE sent may or may not restart the keepalive interval (statement silent); both accepted",
-                 "a message arriving at exactly the hold deadline is delivered after the expiry (select_biased order)"],
+                 "a message arriving at exactly the hold deadline is delivered after the expiry (select_biased order)",
+                 "thorough tier: five real PeerSessions over loopback are compared with the model's prediction "
+                 "(counters real-session:*); wall-clock, so they only confirm"],
     floor=dict(evaluations=100000, nontrivial=50000,
                counters={"clause:negotiated:open-exchange-nonzero": 5000, "clause:zero-disables:open-exchange-zero": 1000,
                          "clause:zero-disables:step": 3000, "clause:re-arm:rearming-input": 10000,
@@ -27,5 +29,8 @@ CFG = dict(
     quick=[e2("exh", "event::verif::c08::run", 4, 120, part="exhaustive", nshards=4, depth=6),
            e2("rnd", "event::verif::c08::run", 1, 60, part="random", random=10000)],
     thorough=[e2("exh", "event::verif::c08::run", 16, 1200, part="exhaustive", nshards=16, depth=8),
-              e2("rnd", "event::verif::c08::run", 4, 600, part="random", random=100000)],
+              e2("rnd", "event::verif::c08::run", 4, 600, part="random", random=100000),
+              # wall-clock cross-check of the VDriver transcription against real PeerSessions over
+              # loopback (hold time 0 and 3); never a verdict, only confirms / flags an unfaithful model
+              e2("real", "event::verif::c08::run", 1, 120, part="real")],
 )
